@@ -361,8 +361,13 @@ func (ex *Exec) sprintf(st *State, f string, va Slice) (Str, fmtStatus) {
 		ifc, _ := a.(Iface)
 		if (verb == 'v' || verb == 's') && len(spec) == 2 {
 			s, stt := ex.fmtVal(st, a, nil, verb, true)
-			if stt != fmtOK {
+			if stt == fmtPending {
 				return Str{}, stt
+			}
+			if stt == fmtOpaque {
+				// only this operand is not representable: keep the rest of the text exact
+				ex.OverApprox["fmt: opaque operand rendered as <?>"]++
+				s = ex.strConst("<?>")
 			}
 			out = append(out, s.B...)
 			continue
